@@ -178,7 +178,7 @@ func cmdCheck(args []string) int {
 	findingFunc := map[string]string{}
 	for _, k := range keys {
 		modes := []bool{false}
-		if *prop == "C01" || *prop == "C02" {
+		if *prop == "C01" || *prop == "C02" || w.Contracts.Funcs[k].Opts["conc-only"] != "" {
 			modes = []bool{true}
 		}
 		for _, conc := range modes {
